@@ -92,6 +92,9 @@ class StringMixIn:
     def __contains__(self, item):
         return str(item) in self.__str__()
 
+    def __format__(self, format_spec):
+        return format(self.__str__(), format_spec)
+
     def __getattr__(self, attr):
         if not hasattr(str, attr):
             raise AttributeError(
